@@ -4,6 +4,8 @@ from vlib import common as C
 from vlib.diff import Case, differential
 
 LEVEL = "proof"
+# C functions this check's models mirror (source-text fingerprints are recorded in the evidence, see translate/funchash.py)
+MODELLED_FUNCS = {'src/utils/iwhmap.c': ['iwhmap_put', 'iwhmap_get', 'iwhmap_remove', 'iwhmap_clear', '_lru_entry_update', '_rehash'], 'src/utils/iwarr.c': ['iwulist_insert', 'iwulist_remove', 'iwulist_clone', 'iwlist_unshift', 'iwlist_clone', 'iwarr_sorted_insert', 'iwarr_sorted_remove'], 'src/utils/iwavl.h': ['iwavl_insert', 'iwavl_lookup_bounds'], 'src/utils/iwavl.c': ['iwavl_remove'], 'src/utils/iwrb.c': ['iwrb_put'], 'src/utils/iwxstr.c': ['iwxstr_cat', 'iwxstr_unshift', 'iwxstr_insert', 'iwxstr_printf_va'], 'src/utils/iwpool.c': ['iwpool_alloc', 'iwpool_split_string', 'iwpool_destroy']}
 MANIFEST = dict(
     level="proof",
     text=("Lean 4 theorems over executable mechanism models of iwhmap (buckets, step growth, rehash up/down, LRU list and eviction "
